@@ -16,7 +16,8 @@ open Httpcache
     exchange writes nothing, or the request is a plain GET and the writes directly follow its
     single origin call and are (a) the write-back of the entry that was read, with unchanged
     status and body, after a 304 that answers the stored validators (no precondition of the client's
-    own went upstream in their place — `WritesAfter.freshen`), or (b) the writes of one StoreResponse call for a reply that is
+    own went upstream in their place, and the merged response is one the storability evaluator accepts — `WritesAfter.freshen`,
+    `.restore`), or (b) the writes of one StoreResponse call for a reply that is
     not a 304, for which the storability evaluator said yes and whose body was read completely
     (`StoreWrites`: nothing if the body failed; no index write if the entry write failed). -/
 theorem writes_justified (cfg : Cfg) (t0 : Int) (req : Req) (tr : List Step) (r : Result)
@@ -148,5 +149,35 @@ theorem canStore_sound (r : Resp) (reqH : Header) (h304 : r.status ≠ 304)
             cases this with
             | inl h' => exact absurd h' h304
             | inr h' => exact h'
+
+/-- A 304 that turns the stored response into one that may not be stored is not written. For every stored
+    entry, request and 304: when the storability evaluator says no to the stored response with the merged
+    fields — by `canStore_sound`, read backwards, e.g. must-understand now present over a status that is not understood, or no
+    max-age, Expires or public left on a status that is not heuristically cacheable — the validation writes
+    NOTHING; the caller still gets the merged response, marked REVALIDATED. (On the pinned tree the entry
+    was written back and later served from the store: a stored `302, max-age=0` turned by a 304 into
+    `302, must-understand, max-age=3600`.) -/
+theorem unstorable_merge_is_not_written (cfg : Cfg) (reqH : Header) (key : Str) (stored : Entry) (refs : List Ref) (ri : Option Nat)
+    (f : Freshness) (ccReq : Directives) (mv : Bool) (start t1 : Int) (r : Resp) (b : Bool) (tr : List Step) (res : Result)
+    (h304 : r.status = 304) (hval : clientPreconditionForwarded reqH stored.resp.header = false)
+    (hcs : canStoreResponse (respWith stored.resp (updateStoredHeaders (Header.del stored.resp.header sAge) r.header)) ccReq
+             (parseCC (updateStoredHeaders (Header.del stored.resp.header sAge) r.header)) = false)
+    (h : Run (handleValidation cfg sGET reqH key stored refs ri f ccReq mv start (.resp r t1 b) (fun r => .ret r)) tr res) :
+    tr = [] ∧
+    res = .resp (respWith stored.resp (applyStatus .revalidated (updateStoredHeaders (Header.del stored.resp.header sAge) r.header))) := by
+  unfold handleValidation at h
+  simp only [h304, hval, decide_true, Bool.and_self, Bool.not_false, ↓reduceIte] at h
+  simp only [hcs, Bool.not_false, Bool.or_true, ↓reduceIte] at h
+  cases h
+  exact ⟨rfl, rfl⟩
+
+/-- the hypotheses are met by the reported case: stored `302, max-age=0, ETag`, 304 carrying
+    `must-understand, max-age=3600` -/
+example : canStoreResponse
+    (respWith { status := 302, header := [(sCacheControl, str% "max-age=0"), (sETag, str% "\"a\"")], body := [] }
+      (updateStoredHeaders (Header.del [(sCacheControl, str% "max-age=0"), (sETag, str% "\"a\"")] sAge)
+        [(sCacheControl, str% "must-understand, max-age=3600")]))
+    [] (parseCC (updateStoredHeaders (Header.del [(sCacheControl, str% "max-age=0"), (sETag, str% "\"a\"")] sAge)
+        [(sCacheControl, str% "must-understand, max-age=3600")])) = false := by decide
 
 end Httpcache.C06
